@@ -343,7 +343,7 @@ func classesTargeted(c targetedCase) []string {
 	return out
 }
 
-const ruleTargeted = "valid base = fixed dependency file + 1-2 files of the shared schema generator (all four syntaxes, restricted to what the operator needs) + a victim message holding one specimen of every construct, inserted at a random scope; one of 70 invalidity operators (one per validator rule; see ops_test.go) breaks one declaration chosen at random among all declarations of the target file it applies to. Oracle: base accepted by NewFile (file by file) and NewFiles under both AllowUnresolvable settings and walkable; mutant rejected by both under both settings, except the operators that only leave a reference unresolved, which must be accepted with AllowUnresolvable; nothing panics. non-trivial = the changed declaration is nested (depth >= 1)"
+const ruleTargeted = "valid base = fixed dependency file + 1-2 files of the shared schema generator (all four syntaxes, restricted to what the operator needs) + a victim message holding one specimen of every construct, inserted at a random scope; one of 74 invalidity operators (one per validator rule; see ops_test.go) breaks one declaration chosen at random among all declarations of the target file it applies to. Oracle: base accepted by NewFile (file by file) and NewFiles under both AllowUnresolvable settings and walkable; mutant rejected by both under both settings, except the operators that only leave a reference unresolved, which must be accepted with AllowUnresolvable; nothing panics. non-trivial = the changed declaration is nested (depth >= 1)"
 
 func TestTargeted(t *testing.T) {
 	pbt.Run(t, pbt.Prop[targetedCase]{
@@ -353,7 +353,7 @@ func TestTargeted(t *testing.T) {
 		Check:      checkTargeted,
 		NonTrivial: func(c targetedCase) bool { return !c.Skipped && c.Depth >= 1 },
 		Classes:    classesTargeted,
-		Quick:      2000, Thorough: 30000,
+		Quick:      2000, Thorough: 20000,
 	})
 	if flags.ProtoLegacy {
 		pbt.S.Note("protolegacy build")
